@@ -117,6 +117,8 @@ class World:
         self.fps = {}          # (name, version) -> fingerprint at creation
         self.extra_live = []   # (label, object, fingerprint): slices etc. handed out and kept
         self.fresh = set()     # (name, version) whose stored amounts are determined by user decimal strings alone
+        self.cur_idx = -1      # index of the event being executed (set by the bench)
+        self.created = {}      # (name, version) -> index of the event that produced it
 
     # ---- registry
     def add(self, name, obj, fresh=False):
@@ -128,6 +130,7 @@ class World:
         self.reg.setdefault(name, []).append(obj)
         v = len(self.reg[name]) - 1
         self.fps[(name, v)] = fingerprint(rep, obj)
+        self.created[(name, v)] = self.cur_idx
         if fresh:
             self.fresh.add((name, v))
         return v
